@@ -197,7 +197,11 @@ func (l *linkedBuffer) Reserve(size int) ([]byte, error) {
 	}
 
 	// 3. alloc a new slice
-	buf, err := l.bufferManager.allocShmBuffer(uint32(size))
+	var buf *bufferSlice
+	err = ErrStreamClosed
+	if !l.streamClosed() {
+		buf, err = l.bufferManager.allocShmBuffer(uint32(size))
+	}
 	if err == nil {
 		//todo optimized only release the middle node
 		l.sliceList.pushBack(buf)
@@ -490,13 +494,17 @@ func (l *linkedBuffer) readNextSlice() {
 
 func (l *linkedBuffer) alloc(size uint32) {
 	remain := int64(size)
-	buf, err := l.bufferManager.allocShmBuffer(size)
-	if err == nil {
-		l.sliceList.pushBack(buf)
-		return
+	// the session of a closed stream may have released the shared memory already: never touch it for such a stream,
+	// its Flush fails with ErrStreamClosed and drops the (heap) buffers
+	if !l.streamClosed() {
+		buf, err := l.bufferManager.allocShmBuffer(size)
+		if err == nil {
+			l.sliceList.pushBack(buf)
+			return
+		}
+		allocSize := l.bufferManager.allocShmBuffers(l.sliceList, size)
+		remain -= allocSize
 	}
-	allocSize := l.bufferManager.allocShmBuffers(l.sliceList, size)
-	remain -= allocSize
 	// fallback. alloc memory buffer (not shm)
 	if remain > 0 {
 		if remain < defaultSingleBufferSize {
@@ -509,6 +517,11 @@ func (l *linkedBuffer) alloc(size uint32) {
 			atomic.AddUint64(&l.stream.session.stats.allocShmErrorCount, 1)
 		}
 	}
+}
+
+func (l *linkedBuffer) streamClosed() bool {
+	// in unit test, l.stream maybe is nil
+	return l.stream != nil && l.stream.getStreamState() == uint32(streamClosed)
 }
 
 func (l *linkedBuffer) isFromShareMemory() bool {
